@@ -19,6 +19,12 @@ impl<T> Mutex<T> {
     pub fn try_lock(&self) -> Option<MutexGuard<'_, T>> {
         self.0.try_lock()
     }
+    pub fn get_mut(&mut self) -> &mut T {
+        self.0.get_mut()
+    }
+    pub fn into_inner(self) -> T {
+        self.0.into_inner()
+    }
 }
 
 pub struct RwLock<T>(simsync::RwLock<T>);
@@ -38,8 +44,25 @@ impl<T> RwLock<T> {
     pub fn try_write(&self) -> Option<RwLockWriteGuard<'_, T>> {
         self.0.try_write()
     }
+    pub fn get_mut(&mut self) -> &mut T {
+        self.0.get_mut()
+    }
+    pub fn into_inner(self) -> T {
+        self.0.into_inner()
+    }
     /// Harness-only (see `simsync::RwLock::peek`).
     pub unsafe fn sim_peek(&self) -> &T {
         self.0.peek()
+    }
+}
+
+impl<T: Default> Default for Mutex<T> {
+    fn default() -> Self {
+        Mutex::new(T::default())
+    }
+}
+impl<T: Default> Default for RwLock<T> {
+    fn default() -> Self {
+        RwLock::new(T::default())
     }
 }
